@@ -491,6 +491,16 @@ func extFromGo(v any) map[string]any {
 		return map[string]any{"t": "int", "v": fmt.Sprint(t), "gk": "uint64"}
 	case uint8:
 		return map[string]any{"t": "int", "v": fmt.Sprint(t), "gk": "uint8"}
+	case int16:
+		return map[string]any{"t": "int", "v": fmt.Sprint(t), "gk": "int16"}
+	case int8:
+		return map[string]any{"t": "int", "v": fmt.Sprint(t), "gk": "int8"}
+	case uint:
+		return map[string]any{"t": "int", "v": fmt.Sprint(t), "gk": "uint"}
+	case uint32:
+		return map[string]any{"t": "int", "v": fmt.Sprint(t), "gk": "uint32"}
+	case uint16:
+		return map[string]any{"t": "int", "v": fmt.Sprint(t), "gk": "uint16"}
 	case float64:
 		return floatExt(new(big.Float).SetMode(big.ToNearestEven), t, "float64")
 	case float32:
@@ -558,6 +568,16 @@ func goFromExt(m map[string]any) any {
 			return z.Uint64()
 		case "uint8":
 			return uint8(z.Uint64())
+		case "int16":
+			return int16(z.Int64())
+		case "int8":
+			return int8(z.Int64())
+		case "uint":
+			return uint(z.Uint64())
+		case "uint32":
+			return uint32(z.Uint64())
+		case "uint16":
+			return uint16(z.Uint64())
 		}
 		return z
 	case "float":
